@@ -5,6 +5,7 @@ simulator flags + seed.  `build(world)` returns (worker_pools, scheduler, loader
 """
 from __future__ import annotations
 
+import json
 import random
 import sys
 import types
@@ -489,6 +490,9 @@ def directed_worlds():
     return out
 
 
+FREQ0_WORLD = r'''{"profiles": [{"name": "P0", "strats": [{"dem": [{"name": "gpu", "id": "any", "q": 2}, {"name": "cpu", "id": "any", "q": 2}], "rt": 1, "bs": 1}]}, {"name": "P1", "strats": [{"dem": [{"name": "gpu", "id": "any", "q": 1}, {"name": "cpu", "id": "any", "q": 1}], "rt": 4, "bs": 1}]}, {"name": "P2", "strats": [{"dem": [{"name": "cpu", "id": "any", "q": 2}], "rt": 4, "bs": 1}, {"dem": [{"name": "gpu", "id": "any", "q": 2}, {"name": "cpu", "id": "any", "q": 1}], "rt": 3, "bs": 1}]}], "graphs": [{"name": "G0", "jobs": [{"name": "A", "profile": 2, "children": []}], "policy": {"type": "fixed", "period": 4, "n": 2, "start": 2}, "dv": [10, 50]}, {"name": "G1", "jobs": [{"name": "S", "profile": 1, "children": ["A"]}, {"name": "A", "profile": 1, "children": ["B", "C"], "cond": true}, {"name": "B", "profile": 0, "children": ["D"], "prob": 0.5}, {"name": "C", "profile": 1, "children": ["D"], "prob": 0.5}, {"name": "D", "profile": 2, "children": ["X"], "term": true}, {"name": "X", "profile": 0, "children": ["Y", "Z"], "cond": true}, {"name": "Y", "profile": 1, "children": ["T"], "prob": 0.5}, {"name": "Z", "profile": 2, "children": ["T"], "prob": 0.5}, {"name": "T", "profile": 0, "children": [], "term": true}], "policy": {"type": "fixed", "period": 6, "n": 3, "start": 2}, "dv": [10, 50]}], "pools": [[[{"name": "gpu", "id": "gpu1", "cap": 3}, {"name": "cpu", "id": "cpu2", "cap": 3}], [{"name": "gpu", "id": "gpu3", "cap": 1}, {"name": "cpu", "id": "cpu4", "cap": 2}]], [[{"name": "gpu", "id": "gpu5", "cap": 1}, {"name": "gpu", "id": "gpu6", "cap": 2}, {"name": "cpu", "id": "cpu7", "cap": 2}, {"name": "cpu", "id": "cpu8", "cap": 2}], [{"name": "gpu", "id": "gpu9", "cap": 2}, {"name": "cpu", "id": "cpu10", "cap": 2}, {"name": "cpu", "id": "cpu11", "cap": 2}]]], "sched": {"kind": "fifo", "runtime": 0, "enforce": false}, "flags": {"frequency": 0, "delay": 1, "at_worker_free": false, "drop_skipped": true, "timeout": 300, "variance": 0}, "seed": 171795, "max_recs": 300}'''
+
+
 def finding_worlds():
     """Worlds that exhibit recorded known findings (see known_findings.json)."""
     gpu1 = [R("gpu", "any", 1)]
@@ -503,6 +507,9 @@ def finding_worlds():
             "sched": {"kind": "hostile", "runtime": 0, "cancel_rate": 0.5, "lookahead": 20, "cancel_cond_children": True},
             "flags": {"timeout": 200, "drop_skipped": True}, "seed": 11,
         },
+        # scheduler_frequency=0: while a SCHEDULED task's planned completion is already in the past (deferred
+        # placement) the next SCHEDULER_START is created at the current instant for ever (found by the corpus)
+        dict(json.loads(FREQ0_WORLD), name="scheduler_frequency_zero"),
         {   # a zero-runtime strategy is never finished by Task.step: simulate() spins at t=0
             "name": "zero_runtime_task", "profiles": [{"name": "P0", "strats": [{"dem": gpu1, "rt": 0, "bs": 1}]}],
             "graphs": [{"name": "G0", "jobs": [{"name": "A", "profile": 0}], "policy": {"type": "fixed", "period": 1, "n": 1, "start": 0}, "dv": [0, 0]}],
